@@ -1,6 +1,6 @@
 --------------------------- MODULE KnownHosts_MCBig ---------------------------
 (* The larger bounded instances of KnownHosts (thorough tier); see KnownHosts_MC. *)
-EXTENDS KnownHosts_MCL, KnownHosts_MCF
+EXTENDS KnownHosts_MCQ
 
 \* W: patterns of length <= 4 against hosts of length <= 5
 FilesWBig == WFiles(4)
@@ -13,4 +13,10 @@ F3Shapes == << Unh(<<Pos(A)>>), Unh(<<Pos(Star), Pat(TRUE, A, P22)>>), Hsh(A, P2
 FL3 == Prod3(F3Shapes, <<"none", "ca">>, <<"k1", "ca1">>, MkLine)
        \o Prod3(<<Unh(<<Pos(Star)>>)>>, <<"revoked">>, <<"k1", "ca1">>, MkLine)
 FilesF3r == {<<l1, l2, l3>> : l1, l2, l3 \in Range(FL3)}
+QOfBig(tag) == CASE tag = "WB" -> QueriesWGBig [] tag = "L3" -> QueriesL [] tag = "F3" -> QueriesFq [] OTHER -> QOf(tag)
+\* one TLC run for the thorough tier: long patterns, three-pattern lines, two-line files with every remote
+\* address, three-line files; only the families WB and F3 are emitted for replay
+CasesT == Cases("WB", FilesWBig) \cup Cases("L3", FilesL3) \cup CasesF2full \cup Cases("F3", FilesF3r)
+EmitT == fam \in {"WB", "F3"} => Emit
+ASSUME \A tag \in {"WB", "F3"} : EmitQueries(tag, QOfBig(tag))
 =============================================================================
